@@ -33,7 +33,8 @@ BOUNDED_RULE = (
     "random sequences up to length 40. Non-trivial: at least one advance() and two frames. "
     "auto_threads: each body kind repeated N times with real threads. "
     "atomic: every (outer call in {advance, set_message}, index of the write after which the other party runs, inner call in {set_message, advance}). "
-    "auto_schedules: body kinds x all schedules with <= P preemptions (P=2 quick, 3 thorough), virtual clock, spinner sleep 100 ms."
+    "auto_schedules: body kinds x all schedules with <= 4 preemptions (quick) / all schedules (thorough), virtual clock, spinner sleep 100 ms; "
+    "distinct by (body, decision vector), non-trivial when the schedule contains at least one preemption."
 )
 
 BASE = 1600000000.0
@@ -540,6 +541,7 @@ def _sched_shims(sched, ids):
 
 
 BODIES = ["return", "message-at-once", "sleep200-message", "sleep100-Exception", "sleep100-KeyboardInterrupt", "sleep100-message-sleep100"]
+BODIES_THOROUGH = BODIES + ["sleep100-message-message", "sleep100-message-sleep100-message-sleep100", "sleep300-message-Exception"]
 
 
 def run_schedule(body, choices):
@@ -590,6 +592,23 @@ def run_schedule(body, choices):
                     sched.sleep(0, 0.1)
                     ind.set_message(msgs[1])
                     sched.sleep(0, 0.1)
+                elif body == "sleep100-message-message":
+                    sched.sleep(0, 0.1)
+                    ind.set_message(msgs[1])
+                    ind.set_message(msgs[0])
+                elif body == "sleep100-message-sleep100-message-sleep100":
+                    sched.sleep(0, 0.1)
+                    ind.set_message(msgs[1])
+                    sched.sleep(0, 0.1)
+                    ind.set_message(msgs[0])
+                    sched.sleep(0, 0.1)
+                elif body == "sleep300-message-Exception":
+                    sched.sleep(0, 0.3)
+                    ind.set_message(msgs[1])
+                    want = ValueError("boom")
+                    raise want
+                elif body != "return":
+                    raise AssertionError(body)
         except _Hang as h:
             prob = Problem("schedule|hang", "auto() did not terminate under the schedule: %s" % h)
         except BaseException as e:  # the body's own exception is expected back
@@ -786,13 +805,15 @@ def bounded(ctx):
     ctx.done(exhaustive=False, note=fails.note())
 
     # ---- auto() under the deterministic scheduler
-    bound = 2 if quick else 3
-    ctx.check("auto_schedules", "auto() under a deterministic scheduler (scheduling points: stream writes, sleeps, Event.set, Thread.start, join; virtual clock): "
-                                "bodies %s x all schedules with at most %d preemptions" % (BODIES, bound))
+    bound = 4 if quick else 99
+    bodies = BODIES if quick else BODIES_THOROUGH
+    ctx.check("auto_schedules", "auto() under a deterministic scheduler (scheduling points: stream writes, sleeps, Event.set, Thread.start, join; virtual clock, "
+                                "spinner sleep 100 ms, interval 100 ms): bodies %s x %s" % (
+                                    bodies, "all schedules with at most 4 preemptions" if quick else "all schedules (no preemption bound)"))
     fails = _Failures(ctx)
     complete = True
     total = 0
-    for body in BODIES:
+    for body in bodies:
         for choices, prob, trace in schedules(body, bound):
             total += 1
             ctx.case([body, choices], nontrivial=any(p for (_, _, p) in trace), sample="%s %s" % (body, "".join(str(c) for c in choices)))
